@@ -20,7 +20,7 @@ from mcx.observe import plain
 ID = 'C10'
 LEVEL = 'model_checking'
 ASSUMPTIONS = ['arguments are valid for the file (unit starts for get_CU_at, DIE starts for DIE lookups): the API documents that it does not validate them',
-               'one DWARFInfo per opened file (obtained by the first DWARF event)',
+               'DWARF queries go to the most recently obtained DWARFInfo (the first DWARF event obtains one; `new_dwarf_info` obtains another); typed section objects and the dynamic segment are held across events',
                'state fingerprint = generic walk of the object graph (instance dicts/slots, containers, stream positions, suspended generator frames); construct descriptors, '
                '*Structs objects and code are opaque constants']
 ROOT = os.path.dirname(os.path.dirname(os.path.dirname(os.path.abspath(__file__))))
@@ -35,6 +35,12 @@ class World:
         self.slots = {}
         self.slot_info = {}
         self.last_expected = None
+        self.held = {}              # section / segment objects a user keeps a reference to (lazy per-object maps live on them)
+
+    def sec(self, name):
+        if name not in self.held:
+            self.held[name] = self.elf.get_section_by_name(name)
+        return self.held[name]
 
     @property
     def dw(self):
@@ -70,23 +76,27 @@ def cfi_obs(entries):
 ITER_KINDS = {
     'sections': lambda w, a: (sec_obs(s) for s in w.elf.iter_sections()),
     'segments': lambda w, a: ((type(s).__name__, plain(s.header)) for s in w.elf.iter_segments()),
-    'symbols': lambda w, a: ((s.name, plain(s.entry)) for s in w.elf.get_section_by_name(a).iter_symbols()),
-    'tags': lambda w, a: ((plain(t.entry), getattr(t, 'needed', None)) for t in w.elf.get_section_by_name('.dynamic').iter_tags()),
-    'notes': lambda w, a: (plain(n) for n in w.elf.get_section_by_name(a).iter_notes()),
+    'symbols': lambda w, a: ((s.name, plain(s.entry)) for s in w.sec(a).iter_symbols()),
+    'tags': lambda w, a: ((plain(t.entry), getattr(t, 'needed', None)) for t in w.sec('.dynamic').iter_tags()),
+    'notes': lambda w, a: (plain(n) for n in w.sec(a).iter_notes()),
     'CUs': lambda w, a: (cu.cu_offset for cu in w.dw.iter_CUs()),
     'dynseg_symbols': lambda w, a: ((s.name, plain(s.entry)) for s in _dynseg(w).iter_symbols()),
     'dynseg_tags': lambda w, a: ((plain(t.entry), getattr(t, 'needed', None)) for t in _dynseg(w).iter_tags()),
     'noteseg': lambda w, a: (plain(n) for n in [s for s in w.elf.iter_segments() if type(s).__name__ == 'NoteSegment'][0].iter_notes()),
     'siblings': lambda w, a: (die_obs(d) for d in w.dw.get_DIE_from_refaddr(a).iter_siblings()),
     'TUs': lambda w, a: (tu.tu_offset for tu in w.dw.iter_TUs()),
-    'relocs': lambda w, a: (plain(r.entry) for r in w.elf.get_section_by_name(a).iter_relocations()),
+    'verdefs': lambda w, a: ((plain(v.entry), [x.name for x in it]) for v, it in w.sec('.gnu.version_d').iter_versions()),
+    'verneeds': lambda w, a: ((plain(v.entry), v.name, [x.name for x in it]) for v, it in w.sec('.gnu.version_r').iter_versions()),
+    'relocs': lambda w, a: (plain(r.entry) for r in w.sec(a).iter_relocations()),
     'DIEs': lambda w, a: (die_obs(d) for d in w.dw.get_CU_at(a).iter_DIEs()),
     'children': lambda w, a: (die_obs(d) for d in w.dw.get_DIE_from_refaddr(a).iter_children()),
 }
 
 
 def _dynseg(w):
-    return [s for s in w.elf.iter_segments() if type(s).__name__ == 'DynamicSegment'][0]
+    if '#dynseg' not in w.held:
+        w.held['#dynseg'] = [s for s in w.elf.iter_segments() if type(s).__name__ == 'DynamicSegment'][0]
+    return w.held['#dynseg']
 
 
 def apply(w, ev):
@@ -106,28 +116,41 @@ def apply(w, ev):
         s = elf.get_segment(ev[1])
         return (type(s).__name__, plain(s.header))
     if k == 'symbol':
-        s = elf.get_section_by_name(ev[1]).get_symbol(ev[2])
+        s = w.sec(ev[1]).get_symbol(ev[2])
         return (s.name, plain(s.entry))
     if k == 'symbol_by_name':
-        r = elf.get_section_by_name(ev[1]).get_symbol_by_name(ev[2])
+        r = w.sec(ev[1]).get_symbol_by_name(ev[2])
         return None if r is None else [(s.name, plain(s.entry)) for s in r]
     if k == 'num_symbols':
-        return elf.get_section_by_name(ev[1]).num_symbols()
+        return w.sec(ev[1]).num_symbols()
     if k == 'tags':
-        d = elf.get_section_by_name('.dynamic')
+        d = w.sec('.dynamic')
         return ([(plain(t.entry), getattr(t, 'needed', None), getattr(t, 'soname', None)) for t in d.iter_tags()], d.num_tags())
     if k == 'tag':
-        return plain(elf.get_section_by_name('.dynamic').get_tag(ev[1]).entry)
+        return plain(w.sec('.dynamic').get_tag(ev[1]).entry)
     if k == 'dynseg_symbols':
         seg = [s for s in elf.iter_segments() if type(s).__name__ == 'DynamicSegment'][0]
         return (seg.num_symbols(), [(s.name, plain(s.entry)) for s in seg.iter_symbols()])
     if k == 'notes':
-        return [plain(n) for n in elf.get_section_by_name(ev[1]).iter_notes()]
+        return [plain(n) for n in w.sec(ev[1]).iter_notes()]
     if k == 'hash_lookup':
-        s = elf.get_section_by_name(ev[1]).get_symbol(ev[2])
+        s = w.sec(ev[1]).get_symbol(ev[2])
         return None if s is None else (s.name, plain(s.entry))
+    if k == 'verdef_get':
+        r = w.sec('.gnu.version_d').get_version(ev[1])
+        return None if r is None else (plain(r[0].entry), [(a.name, plain(a.entry)) for a in r[1]])
+    if k == 'verneed_get':
+        r = w.sec('.gnu.version_r').get_version(ev[1])
+        return None if r is None else (plain(r[0].entry), r[0].name, plain(r[1].entry), r[1].name)
+    if k == 'versym':
+        return plain(w.sec('.gnu.version').get_symbol(ev[1]).entry)
     if k == 'data':
-        return bytes(elf.get_section_by_name(ev[1]).data())
+        return bytes(w.sec(ev[1]).data())
+    if k == 'new_dwarf_info':
+        # the user asks the file for its debugging information again: every later DWARF query goes to the new object
+        _ = w.dw                    # (there is a first one)
+        w._dw = elf.get_dwarf_info()
+        return 'new-dwarf-info'
     dw = w.dw
     if k == 'iter_CUs':
         return [cu.cu_offset for cu in dw.iter_CUs()]
@@ -237,7 +260,7 @@ class C10Model(H.Model):
         return World(self.data)
 
     def _roots(self, w):
-        return [w.elf, w._dw, w.slots, w.slot_info]
+        return [w.elf, w._dw, w.slots, w.slot_info, w.held]
 
     def precompute(self, events):
         """Fresh-object observations come from a pristine interpreter, one forked child per observation
@@ -247,7 +270,7 @@ class C10Model(H.Model):
         import sys
         reqs = []
         for ev in events:
-            if ev[0] in ('next', 'drop', 'scramble', 'foreign'):
+            if ev[0] in ('next', 'drop', 'scramble', 'foreign', 'new_dwarf_info'):
                 continue
             if ev[0] == 'open':
                 r = ('iter', ev[1], ev[2])
@@ -271,6 +294,8 @@ class C10Model(H.Model):
     def expected(self, w, ev):
         if ev[0] == 'foreign':
             return repr('foreign-done')
+        if ev[0] == 'new_dwarf_info':
+            return repr('new-dwarf-info')
         if ev[0] == 'next':
             return w.last_expected
         if ev[0] in ('open', 'drop'):
@@ -318,6 +343,13 @@ def derive_events(data, max_dies=40, iterators=True, scramble=True, light=False,
         hs = elf.get_section_by_name(hn)
         if hs is not None and type(hs).__name__ in ('GNUHashSection', 'ELFHashSection'):
             ev += [('hash_lookup', hn, 'b!'), ('hash_lookup', hn, 'printf'), ('hash_lookup', hn, 'absent')]
+    vers = {type(s_).__name__ for s_ in elf.iter_sections()}
+    if 'GNUVerDefSection' in vers and elf.get_section_by_name('.gnu.version_d') is not None:
+        ev += [('verdef_get', i) for i in (1, 2, 3)]
+    if 'GNUVerNeedSection' in vers and elf.get_section_by_name('.gnu.version_r') is not None:
+        ev += [('verneed_get', i) for i in (3, 4, 5)]
+    if 'GNUVerSymSection' in vers and elf.get_section_by_name('.gnu.version') is not None:
+        ev += [('versym', i) for i in range(min(3, elf.get_section_by_name('.gnu.version').num_symbols()))]
     has_dw = elf.has_dwarf_info(strict=True)
     iters = [('sections', None)]
     if elf.get_section_by_name('.symtab') is not None:
@@ -326,6 +358,7 @@ def derive_events(data, max_dies=40, iterators=True, scramble=True, light=False,
         dw = w.dw
         cus = list(dw.iter_CUs())
         ev.append(('iter_CUs',))
+        ev.append(('new_dwarf_info',))
         ndies = 0
         for cu in cus[:3]:
             o = cu.cu_offset
@@ -386,6 +419,10 @@ def derive_events(data, max_dies=40, iterators=True, scramble=True, light=False,
         if type(s).__name__ == 'RelocationSection':
             more.append(('relocs', s.name))
             break
+    if 'GNUVerDefSection' in vers and elf.get_section_by_name('.gnu.version_d') is not None:
+        more.append(('verdefs', None))
+    if 'GNUVerNeedSection' in vers and elf.get_section_by_name('.gnu.version_r') is not None:
+        more.append(('verneeds', None))
     if has_dw:
         if w.dw.debug_types_sec is not None:
             more.append(('TUs', None))
@@ -491,7 +528,7 @@ def explore_unit(system, pass_, depth, tier, deadline):
         if system == 'M0n':
             # the saturation model: DWARF queries only (ELF-level queries create no state), no suspended generators
             events = [e for e in events if e[0] in ('iter_CUs', 'CU_at', 'CU_containing', 'top_DIE', 'dump', 'DIE_at', 'parent', 'children', 'siblings', 'follow',
-                                                    'lineprog', 'CFI', 'pubnames', 'lut_DIE', 'scramble', 'aranges', 'foreign')]
+                                                    'lineprog', 'CFI', 'pubnames', 'lut_DIE', 'scramble', 'aranges', 'foreign', 'new_dwarf_info')]
     except Exception as e:      # noqa: BLE001 - a corpus file the library cannot open at all is not a C10 subject
         return dict(system=system, skipped='cannot derive events: %s' % type(e).__name__, states=0, transitions=0, violations=[], depth_completed=0,
                     saturated=False, per_level=[], capped=None, events=0)
